@@ -105,3 +105,21 @@ package structs
 //@ opt pure yes
 //@ results same
 
+
+//@ file acl.go
+// ---- C08: "the decision does not depend on which other tokens were resolved before, or on cache contents".
+// Role and token identities are shared objects (resolvePoliciesForIdentity appends a cached role's identities by
+// pointer), so merging the identities of one token must not write to any identity object it was given: the merged
+// entries are fresh copies and every pre-existing object keeps its content (frame obligation of `modifies nothing`).
+//@ func ACLServiceIdentities.Deduplicate
+//@ props C08
+//@ results out
+//@ requires[entries-exist] forall j int :: 0 <= j && j < len(ids) ==> ids[j] != nil && allocated(ids[j])
+//@ ensures[inputs-untouched] forall j int :: 0 <= j && j < len(ids) ==> ids[j].ServiceName == old(ids[j].ServiceName) && eq(ids[j].Datacenters, old(ids[j].Datacenters))
+//@ ensures[results-are-fresh-copies] forall j int :: 0 <= j && j < len(out) ==> fresh(out[j])
+//@ modifies nothing
+//@ loop 1 invariant[merged-entries-are-fresh] forall k string :: has(unique, k) ==> fresh(unique[k])
+//@ loop 2 invariant[results-are-fresh-copies] forall j int :: 0 <= j && j < len(results) ==> fresh(results[j])
+//@ loop 2 invariant[merged-entries-are-fresh] forall k string :: has(unique, k) ==> fresh(unique[k])
+//@ loop 1 invariant[existing-identities-untouched] forall p *ACLServiceIdentity :: !fresh(p) ==> p.ServiceName == old(p.ServiceName) && eq(p.Datacenters, old(p.Datacenters))
+//@ loop 2 invariant[existing-identities-untouched] forall p *ACLServiceIdentity :: !fresh(p) ==> p.ServiceName == old(p.ServiceName) && eq(p.Datacenters, old(p.Datacenters))
